@@ -4,6 +4,7 @@ import CoolerModel.Drv.C04
 import CoolerModel.Drv.C15
 import CoolerModel.Drv.C03
 import CoolerModel.Drv.C07
+import CoolerModel.Drv.C07Compat
 import CoolerModel.Drv.C01
 import CoolerModel.Drv.C02
 import CoolerModel.Drv.C12
@@ -24,7 +25,7 @@ one JSON answer per output line.  Executes the very definitions the theorems are
 -/
 open Lean Cooler.Drv
 
-def handlers : List Handler := [Cooler.Drv.C20.handle, Cooler.Drv.C04.handle, Cooler.Drv.C15.handle, Cooler.Drv.C03.handle, Cooler.Drv.C07.handle, Cooler.Drv.C01.handle, Cooler.Drv.C02.handle, Cooler.Drv.C12.handle, Cooler.Drv.C19.handle, Cooler.Drv.C18.handle, Cooler.Drv.C14.handle, Cooler.Drv.C10.handle, Cooler.Drv.C11.handle, Cooler.Drv.C13.handle, Cooler.Drv.C17.handle, Cooler.Drv.C05.handle, Cooler.Drv.C08.handle, Cooler.Drv.C16.handle, Cooler.Drv.C09.handle]
+def handlers : List Handler := [Cooler.Drv.C20.handle, Cooler.Drv.C04.handle, Cooler.Drv.C15.handle, Cooler.Drv.C03.handle, Cooler.Drv.C07.handle, Cooler.Drv.C07Compat.handle, Cooler.Drv.C01.handle, Cooler.Drv.C02.handle, Cooler.Drv.C12.handle, Cooler.Drv.C19.handle, Cooler.Drv.C18.handle, Cooler.Drv.C14.handle, Cooler.Drv.C10.handle, Cooler.Drv.C11.handle, Cooler.Drv.C13.handle, Cooler.Drv.C17.handle, Cooler.Drv.C05.handle, Cooler.Drv.C08.handle, Cooler.Drv.C16.handle, Cooler.Drv.C09.handle]
 
 def dispatch (op : String) (args : Json) : Json :=
   let rec go : List Handler → Json
